@@ -294,6 +294,11 @@ impl SecondaryStorage {
     }
 
     pub(super) async fn drop_table_inner(&self, table_id: TableRefId) -> StorageResult<()> {
+        // Serialize with compaction (and deletes) on this table: a compaction that commits after the
+        // drop would delete the same row-sets a second time (the vacuum then fails on the missing
+        // directory) and add a row-set to a table that no longer exists.
+        let _guard = self.txn_mgr.lock_for_deletion(table_id.table_id).await;
+
         let mut changeset = vec![];
 
         let entry = DropTableEntry { table_id };
